@@ -214,12 +214,12 @@ func EncodeInto(e encoding.Encoder, x interface{}, typ reflect.Type) error {
 	// step 1: create an instance of typ called out
 	out := reflect.New(typ)
 	// step 2: decode this instance with: Decoder.Decode()
-	err := ConvertFrom(out, x)
+	err := ConvertFrom(out.Interface(), x)
 	if err != nil {
 		return err
 	}
 	// step 3: encode out
-	if err := e.Encode(out); err != nil {
+	if err := e.Encode(out.Interface()); err != nil {
 		return err
 	}
 	return nil
